@@ -17,6 +17,10 @@ import (
 // the variables in declaration order.
 func c08ListOrder(ctx *core.Ctx, cc *CC) {
 	ctx.Rule("C08.R5", "lists built over the prefix variables are appended to (declaration order) — parameter lists, forwarded argument lists and substitution lists agree", 8)
+	prefixListOrder(ctx, cc, "C08.R5")
+}
+
+func prefixListOrder(ctx *core.Ctx, cc *CC, rule string) {
 	for _, p := range cc.V.Pkgs {
 		switch p.Name {
 		case "golang", "java", "dartlang", "python":
@@ -81,14 +85,14 @@ func c08ListOrder(ctx *core.Ctx, cc *CC) {
 						construct := p.Name + "." + fname + " › list " + acc.Name + " over the prefix variables (#" + strconv.Itoa(n) + ")"
 						pos := cc.V.Pos(as.Pos())
 						if as.Tok == token.ADD_ASSIGN {
-							ctx.Discharge("C08.R5", construct, pos, acc.Name+" += … appends")
+							ctx.Discharge(rule, construct, pos, acc.Name+" += … appends")
 							return true
 						}
 						if !mentions(as.Rhs[0], accObj) {
 							return true // plain overwrite, not an accumulation
 						}
 						order, why := accBeforeElem(p.TypesInfo, as.Rhs[0], accObj, elemObj)
-						ctx.Check(order, "C08.R5", construct, pos, "the accumulator precedes the element in the new value",
+						ctx.Check(order, rule, construct, pos, "the accumulator precedes the element in the new value",
 							"the list is built by prepending ("+why+"): with two or more prefix variables it names them in reverse declaration order while the sibling lists of the same generator use declaration order — values are bound to the wrong variables and publisher and subscriber topics differ")
 						return true
 					})
